@@ -144,8 +144,20 @@ func (c *Ctx) funcFor(fc *FuncContract) *ssa.Function {
 }
 
 // Load loads the packages matching patterns (plus their contract files).
+// overlayFiles maps real file paths to replacement files (selftest: mutated sources
+// without touching the repository).
+var overlayFiles = map[string]string{}
+
 func Load(repo string, patterns []string) (*Ctx, error) {
-	cfg := &packages.Config{Mode: packages.LoadSyntax, Dir: repo, BuildFlags: []string{"-tags=verif"},
+	ov := map[string][]byte{}
+	for real, repl := range overlayFiles {
+		b, err := os.ReadFile(repl)
+		if err != nil {
+			return nil, err
+		}
+		ov[real] = b
+	}
+	cfg := &packages.Config{Overlay: ov,Mode: packages.LoadSyntax, Dir: repo, BuildFlags: []string{"-tags=verif"},
 		Env: append(os.Environ(), "GOFLAGS=-mod=mod", "GOPROXY=off", "GOSUMDB=off", "GOTOOLCHAIN=local",
 			"PATH=/opt/veriftools/go1.26.8/bin:"+os.Getenv("PATH"))}
 	pkgs, err := packages.Load(cfg, patterns...)
@@ -203,7 +215,7 @@ func Load(repo string, patterns []string) (*Ctx, error) {
 			ctx.opaque[o] = true
 		}
 		for _, gv := range cf.GhostVars {
-			ctx.ghostVars[gv.Name] = gv
+			ctx.ghostVars[cf.PkgPath+"::"+gv.Name] = gv
 		}
 		for _, gf := range cf.Ghosts {
 			ctx.ghosts[cf.PkgPath+"."+gf.Name] = gf
@@ -215,9 +227,9 @@ func Load(repo string, patterns []string) (*Ctx, error) {
 			ctx.all = append(ctx.all, fc)
 			switch fc.Kind {
 			case "extern":
-				ctx.contracts[fc.Key] = fc
-				// interface method of an external package: "pkg.Iface.Method" form is used as is
-				ctx.ifaceContracts[fc.Key] = fc
+				// assumed contracts are scoped to the package whose contract file states them
+				ctx.contracts[fc.PkgPath+"=>"+fc.Key] = fc
+				ctx.ifaceContracts[fc.PkgPath+"=>"+fc.Key] = fc
 			case "func":
 				if strings.HasPrefix(fc.Key, "(") {
 					end := strings.Index(fc.Key, ")")
@@ -270,14 +282,14 @@ func Load(repo string, patterns []string) (*Ctx, error) {
 		if fc.LogName == "" {
 			fc.LogName = name
 		}
-		ctx.ghostVars["calls_"+fc.LogName] = &GhostVar{Name: "calls_" + fc.LogName, Type: "mathint", PkgPath: fc.PkgPath, Math: true}
+		ctx.ghostVars[fc.PkgPath+"::calls_"+fc.LogName] = &GhostVar{Name: "calls_" + fc.LogName, Type: "mathint", PkgPath: fc.PkgPath, Math: true}
 		for i := 0; i < sig.Params().Len(); i++ {
 			p := sig.Params().At(i)
 			if p.Name() == "" || p.Name() == "_" {
 				continue
 			}
 			n := "arg_" + fc.LogName + "_" + p.Name()
-			ctx.ghostVars[n] = &GhostVar{Name: n, PkgPath: fc.PkgPath, Ty: p.Type()}
+			ctx.ghostVars[fc.PkgPath+"::"+n] = &GhostVar{Name: n, PkgPath: fc.PkgPath, Ty: p.Type()}
 		}
 	}
 	return ctx, nil
